@@ -1,6 +1,6 @@
 (* C19 - Counterfactual event simplification and factorisation preserve probability. *)
 From Coq Require Import List Bool.
-From Y0 Require Import Base.ListSet Graph.MixedGraph Dsl.Syntax Dsl.Build Alg.Id Alg.Cg Alg.CtfAnc Proofs.CtfP Sem.Scm Sem.CfSem Proofs.ScmP Proofs.MinimizeSemP.
+From Y0 Require Import Base.ListSet Graph.MixedGraph Dsl.Syntax Dsl.Build Alg.Id Alg.Cg Alg.CtfAnc Proofs.CtfP Sem.Scm Sem.CfSem Proofs.ScmP Proofs.MinimizeSemP Proofs.CgSemP Proofs.AncSemP.
 Import ListNotations.
 
 (* FIRST CLAUSE, in full: 'minimising a counterfactual variable yields the same random variable in every compatible model'.
@@ -28,6 +28,15 @@ Theorem C19_minimising_an_event_preserves_its_truth_everywhere (g : mg nat) (D :
   (forall p, In p ev -> In (vn (fst p)) (nodes g)) ->
   cevent_true U f rho order ev u = cevent_true U f rho order ev' u.
 Proof. intros Hl Ho. exact (minimize_event_same_truth g U f rho Hl order Ho ev ev' u). Qed.
+
+(* Def. 2.1: every counterfactual ancestor W_z listed for Y_x is a variable of the graph and denotes the value W takes in the world of Y_x:
+   in every model, at every exogenous state, W_z = W_x (the subscripts dropped from x are irrelevant to W) *)
+Theorem C19_listed_ancestor_takes_the_value_it_has_in_that_world (g : mg nat) (D : Type) `{EqB D} (U : Type) (f : nat -> (nat -> D) -> U -> D)
+  (rho : nat * bool -> D) (order : list nat) (v : var) anc a u :
+  local g U f -> is_topo g order = true -> is_cf v = true -> clean v ->
+  get_ancestors_of_counterfactual v g = Some anc -> In a anc ->
+  In (vn a) (nodes g) /\ value U f rho order a u = solve U f rho order (vi v) u (vn a).
+Proof. intros Hl Ho. exact (counterfactual_ancestor_same_value g U f rho Hl order Ho v anc a u). Qed.
 
 (* SECOND CLAUSE ('SIMPLIFY returns an event with the same probability') is FALSE of the code as it stands (known finding C19/simplify-probability):
    on the one-node graph, SIMPLIFY turns the certain event Y_y = y into the factual Y = y; in the model Y := u the first is true at
@@ -62,6 +71,7 @@ Proof. exact components_old_merges_through_outside_edges. Qed.
 Print Assumptions C19_minimised_variable_is_the_same_random_variable.
 Print Assumptions C19_every_submodel_has_exactly_one_solution.
 Print Assumptions C19_minimising_an_event_preserves_its_truth_everywhere.
+Print Assumptions C19_listed_ancestor_takes_the_value_it_has_in_that_world.
 Print Assumptions C19_simplify_preserves_probability_refuted.
 Print Assumptions C19_minimisation_is_total_well_formed_and_keeps_exactly_the_relevant_subscripts.
 Print Assumptions C19_old_minimisation_raised_refuted.
